@@ -304,6 +304,19 @@ func errValClass(r *ssa.Return, v ssa.Value, depth int) string {
 		// an error variable returned as is: failing iff the block is behind its non-nil edge
 		fn := r.Parent()
 		for _, ce := range ir.DominatingConds(fn, r.Block()) {
+			// err == io.EOF / errors.Is(err, X) true => err is non-nil
+			if ev, ok := isEOFTest(ce.If.Cond); ok && (sameErrValue(ev, v) || ev == v) {
+				_, neg := ir.Peel(ce.If.Cond)
+				core, _ := ir.Peel(ce.If.Cond)
+				isEq := true
+				if bo, ok := core.(*ssa.BinOp); ok && bo.Op == token.NEQ {
+					isEq = false
+				}
+				succTrue := fn.Blocks[ce.Edge.From].Succs[0].Index == ce.Edge.To
+				if (isEq != neg) == succTrue {
+					return "fail"
+				}
+			}
 			if e, nilWhenTrue, ok := ir.NilCheck(ce.If.Cond); ok && sameErrValue(e, v) {
 				succTrue := fn.Blocks[ce.Edge.From].Succs[0].Index == ce.Edge.To
 				if succTrue != nilWhenTrue {
